@@ -1410,6 +1410,19 @@ func c05r1(c *core.Ctx) {
 							}
 							c.Pass(key, posOf(p, ce), "map-ordered result passed on by return: callers are classified")
 							return true
+						case *ast.CallExpr:
+							// handed on at once, as an argument: fine when that parameter only flows into consumers that sort it
+							if cal := calleeOf(info, px); cal != nil {
+								for i, a := range px.Args {
+									if ast.Unparen(a) == ast.Expr(ce) {
+										if okSink, why := k.sortingSink(cal, i, 0); okSink {
+											classes["F2"]++
+											c.Pass(key, posOf(p, ce), "map-ordered result of "+core.FuncName(src)+" handed to "+cal.Name()+": flows only to "+why)
+											return true
+										}
+									}
+								}
+							}
 						}
 						c.Fail(key, posOf(p, ce), "map-ordered result of "+core.FuncName(src)+" is used in a way that is not classified as order-independent")
 						return true
